@@ -20,23 +20,52 @@ from sa.sets import ORDER_FREE_CALLS, SetTypes
 from . import common
 from .common import block_always_raises
 
-# (function qualname suffix, kind, normalised set expression) -> reason
+# (module suffix, kind, structural shape of the consumer) -> reason.  Keys are structural (module + how the
+# set is consumed), not names: renaming locals or extracting a helper inside the module does not change them.
 R1_TABLE = {
-    ("stage2.cse::cse", "listcomp", "common_exprs"): "order of the candidate list only decides the numbering of the fresh axis names cse.<n>; names are compared for equality only (C08.R1) and nested/overlapping candidates are removed before replacement",
-    ("util.solver::solve", "list", "set(equations)"): "de-duplicated equation list handed to the solver; the solution set of an equation system does not depend on equation order (assumption)",
-    ("util.solver::solve", "iter", "class_constants"): "next(iter(class_constants)) is only used when the class has exactly one constant; with more than one the function raises SolveExceptionNoSolution before returning",
-    ("util.solver::solve", "list", "contradicting_variables"): "argument of the SolveExceptionNoSolution that is raised on the next line (message only)",
-    ("util.solver::solve", "pop", "v"): "dict comprehension over sets that were just checked to have exactly one element (`len(values) != 1` raises above)",
-    ("stage2.solve::solve.axisnames_in_equation", "list", "axisnames"): "result is only compared with a one-element list ([axis_name] != ...); for one element order is irrelevant",
-    ("frontend.backend::BackendRegistryState._get_by_tensors", "list", "backends"): "with more than one element the list only reaches the priority filter (max and ==, order-free) and then either a singleton or the BackendResolutionError text",
-    ("functorchdim.namedtensor_from_functorchdim::op.inner", "dictcomp", "axes"): "dict is only used by key lookup (axes[axis.name])",
+    ("namedtensor.stage2.cse", "listcomp", "[D[k] for k in S]"): "order of the candidate list only decides the numbering of the fresh axis names cse.<n>; names are compared for equality only (C08.R1) and nested/overlapping candidates are removed before replacement",
+    ("util.solver", "list", "list(set(X))"): "de-duplicated equation list handed to the solver; the solution set of an equation system does not depend on equation order (assumption)",
+    ("util.solver", "iter", "next(iter(S))"): "next(iter(class_constants)) is only used when the class has exactly one constant; with more than one the function raises SolveExceptionNoSolution before returning",
+    ("util.solver", "list", "list(S) in raise-argument"): "argument of the SolveExceptionNoSolution that is raised (message only)",
+    ("util.solver", "pop", "{k: S.pop() for k, S in D.items()}"): "dict comprehension over sets that were just checked to have exactly one element (`len(values) != 1` raises above)",
+    ("namedtensor.stage2.solve", "list", "return list(S)"): "result is only compared with a one-element list ([axis_name] != ...); for one element order is irrelevant",
+    ("frontend.backend", "list", "S = list(S)"): "with more than one element the list only reaches the priority filter (max and ==, order-free) and then either a singleton or the BackendResolutionError text",
+    ("functorchdim.namedtensor_from_functorchdim", "dictcomp", "{k: D[k] for k in S}"): "dict is only used by key lookup (axes[axis.name])",
 }
 
 
-def _table(f, kind, e):
-    q = f.qualname
-    for (suffix, k, ex), reason in R1_TABLE.items():
-        if q.endswith(suffix) and k == kind and norm(e) == ex:
+def consumer_shape(kind, e, node):
+    """structural description of how the set-typed expression `e` is consumed at `node`"""
+    par = getattr(node, "_parent", None)
+    st = _stmt_of(node)
+    if kind == "listcomp" and isinstance(node, ast.ListComp) and isinstance(node.elt, ast.Subscript) and isinstance(node.elt.slice, ast.Name) and isinstance(node.generators[0].target, ast.Name) and node.elt.slice.id == node.generators[0].target.id:
+        return "[D[k] for k in S]"
+    if kind == "dictcomp" and isinstance(node, ast.DictComp) and isinstance(node.value, ast.Subscript) and isinstance(node.key, ast.Name) and norm(node.value.slice) == node.key.id:
+        return "{k: D[k] for k in S}"
+    if kind == "list" and isinstance(e, ast.Call) and isinstance(e.func, ast.Name) and e.func.id == "set":
+        return "list(set(X))"
+    if kind == "iter" and isinstance(par, ast.Call) and isinstance(par.func, ast.Name) and par.func.id == "next":
+        return "next(iter(S))"
+    if kind == "pop":
+        dc = enclosing(node, ast.DictComp)
+        if dc is not None and dc.value is node and isinstance(dc.generators[0].iter, ast.Call) and norm(dc.generators[0].iter.func).endswith(".items"):
+            return "{k: S.pop() for k, S in D.items()}"
+    if kind == "list":
+        if isinstance(st, ast.Return) and st.value is node:
+            return "return list(S)"
+        if isinstance(st, ast.Assign) and st.value is node and len(st.targets) == 1 and norm(st.targets[0]) == norm(e):
+            return "S = list(S)"
+        if isinstance(par, ast.Call) and isinstance(getattr(par, "_parent", None), ast.Raise):
+            return "list(S) in raise-argument"
+        if isinstance(st, ast.Raise):
+            return "list(S) in raise-argument"
+    return None
+
+
+def _table(f, kind, e, node=None):
+    shape = consumer_shape(kind, e, node) if node is not None else None
+    for (suffix, k, sh), reason in R1_TABLE.items():
+        if f.module.name.endswith(suffix) and k == kind and sh == shape:
             return reason
     return None
 
@@ -47,17 +76,8 @@ def _len_of(t, expr_text):
 
 def singleton_guard(facts, expr_text):
     """Do the dominating branch facts imply len(expr) <= 1 ?"""
-    for t, pol in facts:
-        if not (isinstance(t, ast.Compare) and len(t.ops) == 1):
-            continue
-        l, op, r = t.left, t.ops[0], t.comparators[0]
-        if _len_of(l, expr_text) and isinstance(r, ast.Constant) and isinstance(r.value, int):
-            k = r.value
-            if pol and ((isinstance(op, ast.Eq) and k <= 1) or (isinstance(op, ast.LtE) and k <= 1) or (isinstance(op, ast.Lt) and k <= 2)):
-                return True
-            if not pol and ((isinstance(op, ast.NotEq) and k <= 1) or (isinstance(op, ast.Gt) and k <= 1) or (isinstance(op, ast.GtE) and k <= 2)):
-                return True
-    return False
+    lo, hi = common.len_bounds(facts, expr_text)
+    return hi is not None and hi <= 1
 
 
 def _stmt_of(n):
@@ -287,7 +307,7 @@ def r1(p, rep):
             else:
                 detail = ""
             # (e) table
-            reason = _table(f, kind, e)
+            reason = _table(f, kind, e, node)
             if reason:
                 rep.exempt("C16.R1", key, site, reason)
                 continue
